@@ -260,7 +260,7 @@ var rePath = regexp.MustCompile(`"?/[^ :"]+"?`)
 
 func C11(r *ck.Run) {
 	requireInstrumented()
-	r.Level = "model_checking"
+	r.Level = "fault_enumeration"
 	r.Rule("for every victim operation (PutObject new / overwrite / nested / with tags / with tags+legal hold+retention, CopyObject, UploadPart re-upload, CompleteMultipartUpload new / overwrite, DeleteObject plain / nested with parent pruning / by version id) × storage configuration {O_TMPFILE, named temp} × {xattr, sidecar} × {unversioned, versioning enabled}: the process is killed before EVERY file-system step of the operation (the logical thread is frozen before step i, its file descriptors are closed, deferred Go code does not reach the file system), a new backend instance is started on the same storage and everything the API shows about the key is compared with the complete previous and the complete new state; distinct = (configuration, victim, crash point)")
 	r.Assume("a killed process loses its file descriptors and runs no deferred code; page-cache contents survive (process crash, not power loss); single syscalls are atomic")
 	cfgs := []pxCfg{{}, {NoTmp: true}, {Versioning: true}, {NoTmp: true, Versioning: true}}
